@@ -271,7 +271,73 @@ pub fn c15_ffi_list_get_u32() {
     std::mem::forget(a);
 }
 
+/// `a.concat(&b)` on two distinct lists: the result holds a's then b's elements, the operands are unchanged,
+/// and the result is a NEW storage (a later push through it is not visible through the operands).
+#[cfg_attr(kani, kani::proof)]
+#[cfg_attr(kani, kani::unwind(6))]
+#[cfg_attr(kani, kani::stub(std::sync::Mutex::lock, crate::stubs::mutex_lock_stub))]
+pub fn c15_concat_distinct() {
+    let a: List<u64> = List::new();
+    let b: List<u64> = List::new();
+    let x: u64 = any();
+    let y: u64 = any();
+    let na: usize = any();
+    assume(na <= 1);
+    if na == 1 {
+        a.push(x);
+    }
+    b.push(y);
+    let c = a.concat(&b);
+    assert!(a.len() == na && b.len() == 1, "concat changed an operand");
+    assert!(c.len() == na + 1, "concat length");
+    assert!(c.get(na) == Some(y), "concat content");
+    if na == 1 {
+        assert!(c.get(0) == Some(x), "concat content");
+    }
+    assert!(c.capacity() >= c.len(), "capacity < len after concat");
+    let z: u64 = any();
+    c.push(z);
+    assert!(b.len() == 1 && a.len() == na, "push through the concatenation is visible through an operand (aliased storage)");
+    assert!(c.len() == na + 2);
+    cover!(na == 0, "empty_first_operand");
+    cover!(na == 1, "non_empty_first_operand");
+    std::mem::forget(a);
+    std::mem::forget(b);
+    std::mem::forget(c);
+}
+
+/// concat that has to grow the result beyond one doubling: elements larger than 1024 bytes start at capacity 1,
+/// so [e1] ++ [e2, e3] needs 3 slots after a first allocation of 1.
+#[cfg_attr(kani, kani::proof)]
+#[cfg_attr(kani, kani::unwind(6))]
+#[cfg_attr(kani, kani::stub(std::sync::Mutex::lock, crate::stubs::mutex_lock_stub))]
+pub fn c15_concat_growth_big() {
+    use crate::c16_sched::Big;
+    let a: List<Val<Big>> = List::new();
+    let b: List<Val<Big>> = List::new();
+    let x: u64 = any();
+    let mut e = Big([0; 129]);
+    e.0[128] = x;
+    a.push(Val(e));
+    e.0[128] = !x;
+    b.push(Val(e));
+    e.0[128] = x ^ 5;
+    b.push(Val(e));
+    let c = a.concat(&b);
+    assert!(c.len() == 3 && c.capacity() >= 3, "capacity < len after concat");
+    match c.get(2) {
+        Some(v) => assert!(v.0.0[128] == x ^ 5, "last element of the concatenation"),
+        None => assert!(false),
+    }
+    cover!(true, "reached_end");
+    std::mem::forget(a);
+    std::mem::forget(b);
+    std::mem::forget(c);
+}
+
 crate::list![
+    c15_concat_distinct,
+    c15_concat_growth_big,
     c15_compute_capacity,
     c15_growth_u64,
     c15_growth_u8,
